@@ -1467,6 +1467,20 @@ class PolyhedralTermList(TermList):  # noqa: WPS338
         if terms_added < num_vars_to_elim:
             raise ValueError("Context has insufficient information")
 
+        # Solving the selected rows as equalities bounds the term only if the term's coefficients
+        # on the variables to eliminate are a combination of those rows with multipliers of the
+        # right sign (nonnegative when refining, nonpositive when relaxing)
+        row_matrix = np.array([[row.get_coefficient(var) for var in forbidden_vars] for row in matrix_row_terms])
+        term_vector = np.array([term.get_coefficient(var) for var in forbidden_vars])
+        try:
+            multipliers = np.linalg.solve(row_matrix.T, term_vector)
+        except np.linalg.LinAlgError:
+            raise ValueError("Context rows are not independent")
+        if refine and np.any(multipliers < 0):
+            raise ValueError("Context rows do not bound the term")
+        if (not refine) and np.any(multipliers > 0):
+            raise ValueError("Context rows do not bound the term")
+
         return matrix_row_terms, forbidden_vars
 
     @staticmethod
